@@ -185,7 +185,8 @@ def main(argv=None):
                                 queries=r.get('queries'), solver_s=r.get('solver_s'),
                                 cpu_s=r.get('cpu'), wall_s=r.get('wall'), budget_s=budget_of(m),
                                 reach=r.get('reach'), replays=replays or None, finding=m.get('finding'),
-                                error=r.get('error'), detail=r.get('detail')))
+                                error=r.get('error'), detail=r.get('detail'),
+                                messages=None if verdict == 'discharged' else r.get('messages')))
 
     for line in known_lines:
         print(line)
